@@ -61,9 +61,9 @@ def floors(tier):
     return {"A:runs": 300 * k, "A:rows_compared": 8000 * k, "A:csv_cells_compared": 50000 * k, "A:runs_with_skipped_in_batch": 40 * k,
             "A:best_config_decided": 250 * k, "A:loaded_best_config_decided": 250 * k, "A:stats_trials_compared": 1500 * k,
             "A:resumed_with_changed_config": 30 * k, "A:trials_without_results": 20 * k,
-            "A:runs_aborted_by_failure_limit": 10 * k, "A:best_config_per_metric_decided:mode_differs_from_first_metric": 30 * k,
+            "A:runs_aborted_by_failure_limit": 10 * k, "A:continued_at_other_path": 60 * k, "A:best_config_per_metric_decided:mode_differs_from_first_metric": 30 * k,
             "B:histories": 2000 * k, "B:histories_with_nan": 200 * k, "B:histories_with_ties": 100 * k, "B:stats_compared": 8000 * k,
-            "B:best_decided": 1500 * k}
+            "B:best_decided": 1500 * k, "B:best_decided_with_non_numeric_reports": 60 * k}
 
 
 # ------------------------------------------------------------------------------------ helpers
@@ -394,6 +394,47 @@ def run_part_a(spec, o):
                 except Exception as e:  # noqa: BLE001
                     o.violate("best_configuration", f"A:tuner_best_config_raised:{type(e).__name__}", {"error": repr(e)[:300], "metric": arg})
                     break
+    # ---- the experiment is continued at another path (what Tuner.load does on a different machine: tuner_path is recomputed,
+    # the callback objects travel with the tuner) with a relaxed criterion: the table keeps the rows of the first part
+    if not sim and r.exc is None and st is not None and rows and random.Random(spec["seed"] + 5).random() < 0.35:
+        from pathlib import Path
+
+        from syne_tune import StoppingCriterion
+
+        first_part = len(rows)
+        old_path = str(r.tuner.tuner_path)
+        r.tuner.tuner_path = Path(old_path + "-resumed-elsewhere")
+        r.tuner.stop_criterion = StoppingCriterion(max_num_trials_started=st.num_trials_started + 3,
+                                                   max_num_evaluations=st.overall_metric_statistics.count + 25)
+        r.run()
+        o.count("A:continued_at_other_path")
+        if r.exc is not None and type(r.exc).__name__ != "LoopBoundExceeded":
+            o.violate("run_completes", f"A:continued_run_raised:{type(r.exc).__name__}", {"error": repr(r.exc)[:300], "kind": kind})
+        elif r.exc is None:
+            deliv_all = []
+            pend2 = None
+            for idx, k, pl in r.rec.events:
+                if k == "s.on_trial_result.call":
+                    pend2 = pl["trial_id"]
+                elif k == "s.on_trial_result.ret" and pend2 is not None:
+                    deliv_all.append(pend2)
+                    pend2 = None
+            rows2 = list(r.store_cb.results)
+            o.count("A:rows_compared_after_continuation", len(rows2))
+            if [row.get("trial_id") for row in rows2] != deliv_all:
+                o.violate("one_row_per_delivered_result", "A:table_after_continuation_at_other_path_is_not_one_row_per_delivered_result",
+                          {"rows": len(rows2), "deliveries": len(deliv_all), "rows_of_first_part": first_part,
+                           "first_row_trials": [row.get("trial_id") for row in rows2][:10], "first_delivered_trials": deliv_all[:10]})
+            else:
+                path2 = os.path.join(str(r.tuner.tuner_path), "results.csv.zip")
+                if not os.path.exists(path2):
+                    o.violate("read_back", "A:results_file_missing_after_continuation", {"path": path2})
+                elif len(pd.read_csv(path2)) != len(rows2):
+                    o.violate("read_back", "A:csv_row_count_differs_after_continuation", {"csv": len(pd.read_csv(path2)), "rows": len(rows2)})
+        import shutil
+
+        shutil.rmtree(str(r.tuner.tuner_path), ignore_errors=True)
+        r.tuner.tuner_path = Path(old_path)
     n_nan = sum(1 for t, res in handed_all for v in res.values() if _isnum(v) and _isnan(float(v)))
     o.set_sig(("A", kind, spec["backend"], len(rows), len(started), skipped_in_batch, n_nan > 0), nontrivial=len(rows) >= 3)
     o.sample = {"part": "A", "kind": kind, "backend": spec["backend"], "rows": len(rows), "handed": n_handed, "trials": len(started),
@@ -422,7 +463,7 @@ def run_part_b(spec, o):
     n_trials = rng.randint(1, 8)
     metrics = ["m%d" % i for i in range(rng.randint(1, 4))]
     kinds = {m: rng.choice(["float", "float", "int", "nan_mix", "inf_mix", "ties", "string"]) for m in metrics}
-    kinds[metrics[0]] = rng.choice(["float", "nan_mix", "ties", "int", "inf_mix"])
+    kinds[metrics[0]] = rng.choice(["float", "nan_mix", "ties", "int", "inf_mix", "str_mix"])
 
     def val(m):
         k = kinds[m]
@@ -436,6 +477,8 @@ def run_part_b(spec, o):
             return rng.choice([float("inf"), float("-inf"), rng.uniform(-1, 1), rng.uniform(-1, 1)])
         if k == "ties":
             return float(rng.randint(0, 2))
+        if k == "str_mix":  # a metric for which some report carries a string / None (say 'n/a' before the first validation)
+            return rng.choice(["n/a", None]) if rng.random() < 0.12 else rng.uniform(-5, 5)
         return rng.choice(["a", "b", "nan", ""])
 
     st = TuningStatus(metric_names=metrics)
@@ -475,12 +518,32 @@ def run_part_b(spec, o):
         o.count("B:histories_with_ties")
     # best trial for the first metric, both modes
     m0 = metrics[0]
+    mixed = kinds[m0] == "str_mix" and any(not _isnum(r_[m0]) for _, r_ in overall)
+    if mixed:
+        o.count("B:histories_with_non_numeric_reports_of_the_queried_metric")
     for mode in ("min", "max"):
         vals = [(t, float(r_[m0])) for t, r_ in overall if _isnum(r_[m0]) and not _isnan(float(r_[m0]))]
         if not vals:
             continue
         opt = min(v for _, v in vals) if mode == "min" else max(v for _, v in vals)
         best = {t for t, v in vals if v == opt}
+        if mixed:
+            # statistics are 'tracked for numeric types only': a trial's running statistics stop at its first non-numeric value.
+            # Judged only where both readings (all numeric values / the values up to a trial's first non-numeric one) agree.
+            pre = []
+            for t, lst in per_trial.items():
+                for r_ in lst:
+                    if not _isnum(r_[m0]):
+                        break
+                    if not _isnan(float(r_[m0])):
+                        pre.append((t, float(r_[m0])))
+            if not pre:
+                continue
+            opt2 = min(v for _, v in pre) if mode == "min" else max(v for _, v in pre)
+            if opt2 != opt or {t for t, v in pre if v == opt2} != best:
+                o.count("B:non_numeric_mix_ambiguous_not_judged")
+                continue
+            o.count("B:best_decided_with_non_numeric_reports")
         if (mode == "min" and opt == float("inf")) or (mode == "max" and opt == float("-inf")):
             # every value is the worst possible one: trials without any value tie with it
             o.count("B:degenerate_worst_possible_optimum")
